@@ -90,20 +90,37 @@ def check_subsume_merge(chk, prog):
     chk.judge(a0 == {"cur"} and a1 == {"new"} and idx_ok, R, BR + "MergeFn::to_callback:flag-inputs",
               "combine_subsumed(cur[subsume_col], new[subsume_col])",
               f"combine_subsumed is fed {sorted(a0)} / {sorted(a1)} (index from subsume_col: {idx_ok}) instead of the current and the new row's flag", c.loc)
-    # changed |= cur != out
+    # the combination must run on every merge: neither the call nor any closure enclosing it may be
+    # control dependent on a data test (e.g. short-circuited behind `ret_val != cur`)
+    cond = []
+    h, bb = g, c.bb
+    while True:
+        for gd in guards(h, bb):
+            cond.append((h.name, gd))
+        if h.kind != "closure" or h.name == root.name:
+            break
+        par = prog.fns.get(h.parent)
+        if par is None:
+            break
+        cb = [bi for (bi, bj, name, ops) in par.closures_created() if name == h.name]
+        if not cb:
+            break
+        h, bb = par, cb[0]
+    chk.judge(not cond, R, BR + "MergeFn::to_callback:flag-unconditional",
+              "the flag combination runs on every merge (not control dependent on any data test)",
+              "the subsume flags are only combined conditionally (" + "; ".join(
+                  f"in {n.rsplit('::', 2)[-1]}: {gd.get('rel') or ('truthy' if gd.get('truth') else 'falsy')} test" for n, gd in cond[:3]) +
+              "): on the other path the output row keeps one row's flag", c.loc)
+    # a flag-only change must be reported: the merged flag is compared with the current one
     ored = False
-    for i, j, s in g.assigns():
-        if s[2][0] == "bin" and s[2][1] == "BitOr":
-            for o in (s[2][2], s[2][3]):
-                d = g.describe_operand(o)
-                if d[0] == "call" and d[1].p.endswith("PartialEq::ne"):
-                    xs = set()
-                    for arg in d[1].args:
-                        xs |= {a[1] for a in g.origins(arg) if a[0] == "call"}
-                    if BR + "combine_subsumed" in xs:
-                        ored = True
-    chk.judge(ored, R, BR + "MergeFn::to_callback:flag-change", "`changed` is OR-ed with (cur flag != merged flag)",
-              "a change of the subsume flag alone is not reported as a change (the merged row would be dropped)", c.loc)
+    for hh in region:
+        for cc in hh.calls:
+            if cc.p.endswith(("PartialEq::ne", "PartialEq>::ne", "PartialEq::eq", "PartialEq>::eq")):
+                xs = set()
+                for arg in cc.args:
+                    xs |= {a[1] for a in hh.origins(arg, outargs=True) if a[0] in ("call", "outarg")}
+                if BR + "combine_subsumed" in xs:
+                    ored = True
     # result flows into RowVals.subsume
     outer = prog.fns.get(g.parent) if g.kind == "closure" else None
     flows = False
@@ -112,8 +129,13 @@ def check_subsume_merge(chk, prog):
             if s[2][0] == "agg" and s[2][2] == BR + "RowVals":
                 adt = prog.adts[BR + "RowVals"]
                 names = [fd["name"] for fd in adt["variants"][0]["fields"]]
-                at = h.origins(s[2][4][names.index("subsume")])
+                at = h.origins(s[2][4][names.index("subsume")], outargs=True)
                 for a in at:
+                    if a[0] == "outarg":
+                        cc = h.call_at(a[2])
+                        for arg in cc.args:
+                            if any(x[0] == "closure" and (x[1] == g.name or g.name.startswith(x[1])) for x in h.origins(arg)):
+                                flows = True
                     if a[0] == "call" and a[1].endswith("bool::then"):
                         cc = h.call_at(a[2])
                         ca = h.origins(cc.args[1])
